@@ -19,7 +19,7 @@ def run_scenarios(hexe, drv_exe, scenarios, sc, tag="s", env=None, timeout=60, w
         if env:
             e.update(env)
         rc, out, err = vlib.run([hexe, sp, hp], timeout=timeout, env=e)
-        res = {"i": i, "scenario": scenarios[i], "rc": rc, "history_path": hp, "stderr": err[-500:]}
+        res = {"i": i, "scenario": scenarios[i], "rc": rc, "history_path": hp, "stderr": err[-500:], "env": dict(env or {})}
         if not os.path.exists(hp):
             res.update(status="CRASH", model_line="", mon_line="no history (rc=%s) %s" % (rc, err[-300:]))
             return res
@@ -56,7 +56,7 @@ def history_excerpt(path, around=None, n=40):
 
 
 def history_stage(rep, proof_ok, sc, lib, prop, drv, harness_src, gen, tier, seed, replay=None, rule="",
-                  nontrivial=None, search_rounds=2, proof_log="", prop_file="", known_patterns=None):
+                  nontrivial=None, search_rounds=2, proof_log="", prop_file="", known_patterns=None, nohooks_reps=0):
     """runs the scenarios of one property on the scratch build and files violations in rep; returns coverage dict"""
     okd, drv_exe, derr = vlib.build_driver(drv)
     if not okd:
@@ -71,6 +71,7 @@ def history_stage(rep, proof_ok, sc, lib, prop, drv, harness_src, gen, tier, see
     if replay:
         payload = json.load(open(replay)) if isinstance(replay, str) else replay
         scenarios, stats = payload.get("scenarios", []), {"replay": True}
+        replay_env = payload.get("env") or None
     else:
         rng = random.Random(seed)
         cdir = os.path.join(vlib.VERIF, "corpus", prop)
@@ -78,7 +79,17 @@ def history_stage(rep, proof_ok, sc, lib, prop, drv, harness_src, gen, tier, see
         scenarios, stats = gen(rng, tier)
         scenarios = corpus + scenarios
         stats["corpus"] = len(corpus)
-    res = run_scenarios(hexe, drv_exe, scenarios, sc, tag="s_" + prop)
+    res = run_scenarios(hexe, drv_exe, scenarios, sc, tag="s_" + prop, env=replay_env if replay else None)
+    if nohooks_reps and not replay:
+        # the same scenarios with the hooks off: the trace lock serialises the hooked sections and would hide a
+        # missing lock there; these runs are judged by the harness-level monitors only (no replay)
+        nh = []
+        for k in range(nohooks_reps):
+            nh += run_scenarios(hexe, drv_exe, scenarios, sc, tag="nh%d_%s" % (k, prop), env={"VH_NOHOOKS": "1"})
+        for j, r in enumerate(nh):
+            r["i"] = len(res) + j
+        stats["runs_without_hooks"] = len(nh)
+        res = res + nh
     nev = 0
     for r in res:
         if r["model_line"].startswith("OK"):
@@ -173,6 +184,7 @@ def history_stage(rep, proof_ok, sc, lib, prop, drv, harness_src, gen, tier, see
         r = monfail[0]
         rep.violation("monitor-%d.json" % seed,
                       {"kind": "history", "property": prop, "seed": seed, "scenarios": [r["scenario"]],
+                       "env": r.get("env", {}),
                        "monitor": r["mon_line"], "model": r["model_line"],
                        "history": history_excerpt(r["history_path"], n=400),
                        "explanation": "a property monitor failed on a real execution of this scenario (history attached)"},
@@ -216,7 +228,8 @@ def run_sched_property(prop, prop_files, targets, name_re, gen, tier, seed, repl
             rep.violation("repo-build.txt", "the library does not compile with -D%s:\n%s" % (vlib.GUARD, lerr), found_input=False)
             return rep.finish(proof, {"evaluations": 0})
         cov = history_stage(rep, proof["ok"], sc, lib, prop, "sched", "h_sched.c", gen, tier, seed, replay=replay, rule=rule,
-                            proof_log=proof["log"], prop_file=",".join(prop_files), known_patterns=known_patterns)
+                            proof_log=proof["log"], prop_file=",".join(prop_files), known_patterns=known_patterns,
+                            nohooks_reps=3 if tier == "quick" else 2)
     return rep.finish(proof, cov)
 
 
